@@ -1,5 +1,5 @@
 From Coq Require Import List NArith ZArith Bool.
-From LTV.C11 Require Import Model ProofsParams Proofs Proofs2 ProofsInv ProofsInv2 ProofsInv3 ProofsInv4 ProofsAlloc ProofsGlob ProofsLim ProofsLim2 ProofsLim3 ProofsLim4 ProofsGlob2 ProofsNT ProofsNT2 ProofsNT3 ProofsFair ProofsWire.
+From LTV.C11 Require Import Model ProofsParams Proofs Proofs2 ProofsInv ProofsInv2 ProofsInv3 ProofsInv4 ProofsAlloc ProofsGlob ProofsLim ProofsLim2 ProofsLim3 ProofsLim4 ProofsGlob2 ProofsNT ProofsNT2 ProofsNT3 ProofsFair ProofsFair2 ProofsWire.
 Import ListNotations.
 Local Open Scope Z_scope.
 
@@ -137,11 +137,16 @@ Print Assumptions cycle_rotates.
 (* fairness, bounded wait, the case that needs no oracle on random(): when c is the only waiting
    (queued, choked, not snubbed) connection of its group -- slots + 1 interested peers -- the next cycle
    with an effective quota >= 1 unchokes c; so with one more interested peer than slots nobody waits
-   longer than one cycle.  The general statement (every persistently interested non-snubbed peer is
-   unchoked within a bounded number of cycles provided random() gives it the top weight of a single
-   weight class at some cycle) is NOT proved: it needs which element adjust_choke_range picks, only
-   its count and its membership in the queue are proved (cycle_rotates). On the implementation the
-   check evaluates rotation per tick and coverage over long tick streaks (props/c11.py). *)
+   longer than one cycle.  Generalised from 1 to k waiters by fairness_k_waiters below (k <= the cycle's
+   request: every waiter is unchoked by one cycle) and to several groups by fairness_tick_groups.
+   Still NOT proved (hence the suffix kept on this family's first member): the case k > request, i.e.
+   "every persistently interested non-snubbed peer is unchoked within a bounded number of cycles
+   provided random() gives it the top weight of a single weight class at some cycle": it needs WHICH
+   elements adjust_choke_range picks when it does not take the whole range; only their count
+   (adjust_choke_range_rotates), their membership in the queue (cycle_rotates) and the take-all case
+   (adjust_choke_range_takes_all) are proved.  On the implementation the check evaluates rotation per
+   tick, coverage over long tick streaks, and the k-waiter statement on every cycle / tick whose
+   hypotheses hold (props/c11.py: check_fair). *)
 Theorem fairness_single_waiter_partial : forall d v g quota h h' z c, v_dir v = d -> InvL d h -> (g < ng h)%nat ->
   (forall t, In t (q_ents (getq h g)) -> e_min (getent h t) = 0%N) ->
   (1 <= N.min quota (q_max (getq h g)))%N ->
@@ -151,6 +156,46 @@ Theorem fairness_single_waiter_partial : forall d v g quota h h' z c, v_dir v = 
   cs_u (getcs h' c) = true /\ cs_a (getcs h' c) = true.
 Proof. exact ProofsFair.fairness_single_waiter. Qed.
 Print Assumptions fairness_single_waiter_partial.
+
+(* fairness, bounded wait, k waiters (generalises the single-waiter case from 1 to k, still without any
+   oracle on random()): let request = cycle_request quota q
+       = min( max( quota' - unchoked  (or 0),  max_alternate() ),  quota' ),   quota' = min(quota, max_unchoked)
+   be what choke_queue::cycle asks adjust_choke_range to unchoke (ProofsFair2.cycle_request; max_alternate is
+   the rotation rule (unchoked+7)/8 resp. (unchoked+9)/10).  In a group without min_slots reservations whose
+   torrents have room below max_slots for their waiters, if the group's queued count currently_queued does
+   not exceed the request, then ONE cycle unchokes EVERY waiting (queued, choked, not snubbed) connection
+   of the group -- whatever the weights, rates and random() values are.  So each of k waiters waits at most
+   one cycle whenever k <= request.  For k > request which waiters are taken is decided by random(): only
+   the count (adjust_choke_range_rotates) and the membership (cycle_rotates) are proved. *)
+Theorem fairness_k_waiters : forall d v g quota h h' z, v_dir v = d -> InvL d h -> (g < ng h)%nat ->
+  (forall t, In t (q_ents (getq h g)) -> e_min (getent h t) = 0%N) ->
+  (forall t, In t (q_ents (getq h g)) -> (lenN (e_q (getent h t)) + lenN (e_u (getent h t)) <= e_max (getent h t))%N) ->
+  q_cq (getq h g) <= Z.of_N (cycle_request quota (getq h g)) ->
+  cycle v g quota h = Ok (h', z) ->
+  forall c, waiting h g c -> cs_u (getcs h' c) = true /\ cs_a (getcs h' c) = true.
+Proof. exact ProofsFair2.fairness_k_waiters. Qed.
+Print Assumptions fairness_k_waiters.
+
+(* the adjust_choke_range part of fairness_k_waiters: when the request covers the whole candidate range,
+   EVERY connection of the range is flipped (all four weight classes are taken completely). *)
+Theorem adjust_choke_range_takes_all : forall d v heur g range mx choke h h' cnt, v_dir v = d -> InvL d h ->
+  NoDup (ids range) -> POK g choke h (ids range) -> (forall p, In p range -> (snd p < two32)%N) ->
+  adjust_choke_range v heur range mx choke h = Ok (h', cnt) -> (lenN range <= mx)%N ->
+  forall c, In c (ids range) -> cs_u (getcs h' c) = negb choke /\ cs_a (getcs h' c) = true.
+Proof. exact ProofsFair2.acr_all. Qed.
+Print Assumptions adjust_choke_range_takes_all.
+
+(* fairness for several groups: ResourceManager::receive_tick (one direction = balance_unchoked) without a
+   global maximum cycles every group with an unlimited quota; if every group fits (group_fits: no min_slots
+   reservations, room below max_slots, currently_queued <= cycle_request), ONE tick unchokes every waiting
+   connection of EVERY group: a cycle of one group leaves the waiting / unchoked status of the other
+   groups' connections alone (ProofsFair2.cycle_frame). *)
+Theorem fairness_tick_groups : forall d v h h', v_dir v = d -> InvL d h -> h_max h = 0%N ->
+  (forall g, (g < ng h)%nat -> group_fits unlimited h g) ->
+  balance_unchoked v h = Ok h' ->
+  forall c, (c < nc h)%nat -> inq (getcs h c) = true -> inu (getcs h' c) = true.
+Proof. exact ProofsFair2.fairness_tick_groups. Qed.
+Print Assumptions fairness_tick_groups.
 
 (* limits for choke_queue::cycle: in every reachable-style state (InvL) a cycle of group g ends with
      currently_unchoked(g) <= max( min(quota, max_unchoked(g)), slots forced by min_slots in g )
